@@ -1,0 +1,51 @@
+//! Verification facade for `service_info.rs` (cargo feature `verif-hooks`).
+
+use super::*;
+
+pub type PropView = (Vec<u8>, Option<Vec<u8>>);
+
+fn view_props(ps: &[TxtProperty]) -> Vec<PropView> {
+    ps.iter()
+        .map(|p| (p.key.clone().into_bytes(), p.val.clone()))
+        .collect()
+}
+
+pub fn prop(key: &str, val: Option<&[u8]>) -> TxtProperty {
+    TxtProperty {
+        key: key.to_string(),
+        val: val.map(|v| v.to_vec()),
+    }
+}
+
+/// Properties as stored by a `ServiceInfo`, and `generate_txt()`.
+pub fn txt_of_info(info: &ServiceInfo) -> (Vec<PropView>, Vec<u8>) {
+    (
+        view_props(&info.get_properties().properties),
+        info.generate_txt(),
+    )
+}
+
+pub fn txt_decode(txt: &[u8]) -> Vec<PropView> {
+    view_props(&decode_txt(txt))
+}
+
+pub fn txt_decode_unique(txt: &[u8]) -> Vec<PropView> {
+    view_props(&decode_txt_unique(txt))
+}
+
+pub fn txt_encode(props: &[TxtProperty]) -> Vec<u8> {
+    encode_txt(props.iter())
+}
+
+pub fn escape_instance(name: &str) -> String {
+    escape_instance_name(name)
+}
+
+pub fn split_sub(domain: &str) -> (String, Option<String>) {
+    let (a, b) = split_sub_domain(domain);
+    (a.to_string(), b.map(str::to_string))
+}
+
+pub fn valid_ip(addr: &std::net::IpAddr, if_addr: &if_addrs::IfAddr) -> bool {
+    valid_ip_on_intf(addr, if_addr)
+}
